@@ -96,7 +96,10 @@ type c19Call struct {
 	BadRequest string
 }
 
-type c19RT struct{ calls []c19Call }
+type c19RT struct {
+	calls        []c19Call
+	uploadAnswer string // "" = a good answer; otherwise the body every MULTIPART call is answered with
+}
 
 func (rt *c19RT) RoundTrip(r *http.Request) (*http.Response, error) {
 	body, _ := io.ReadAll(r.Body)
@@ -137,7 +140,11 @@ func (rt *c19RT) RoundTrip(r *http.Request) (*http.Response, error) {
 				call.BadRequest = "unexpected form field " + p.FormName()
 			}
 		}
-		return respond(`{"data":{"ok":true}}`)
+		if rt.uploadAnswer != "" {
+			return respond(rt.uploadAnswer)
+		}
+		eb, _ := json.Marshal(map[string]interface{}{"data": map[string]interface{}{"ok": true, "echo": call.Query}})
+		return respond(string(eb))
 	}
 	d := json.NewDecoder(bytes.NewReader(body))
 	d.UseNumber()
@@ -147,7 +154,8 @@ func (rt *c19RT) RoundTrip(r *http.Request) (*http.Response, error) {
 	}
 	out := make([]string, len(call.Batch))
 	for i := range out {
-		out[i] = `{"data":{"ok":true}}`
+		eb, _ := json.Marshal(map[string]interface{}{"data": map[string]interface{}{"ok": true, "echo": call.Batch[i]["query"]}})
+		out[i] = string(eb)
 	}
 	return respond("[" + strings.Join(out, ",") + "]")
 }
@@ -177,6 +185,7 @@ type c19Obs struct {
 	Parse parseObs
 	Steps [][]c19Call
 	Error string // Query returned an error / panicked
+	Misplaced string // a result of Query is not the answer to the request at that position
 }
 
 func c19Run(cs c19Case) (obs c19Obs, hc httpCase) {
@@ -212,8 +221,21 @@ func c19Run(cs c19Case) (obs c19Obs, hc httpCase) {
 					obs.Error = "Query panicked: " + fmt.Sprint(p)
 				}
 			}()
-			if _, err := q.Query(inputs); err != nil {
+			results, err := q.Query(inputs)
+			if err != nil {
 				obs.Error = "Query failed: " + err.Error()
+				return
+			}
+			// every answer names the operation it answers: result i must answer request i
+			for i, in := range inputs {
+				if i >= len(results) || results[i] == nil || fmt.Sprint(results[i]["echo"]) != in.Query {
+					got := "<missing>"
+					if i < len(results) && results[i] != nil {
+						got = fmt.Sprint(results[i]["echo"])
+					}
+					obs.Misplaced = fmt.Sprintf("result %d of MultiOpQueryer.Query answers %q, request %d is %q", i, clip(got, 60), i, clip(in.Query, 60))
+					break
+				}
 			}
 		}()
 		obs.Steps = append(obs.Steps, rt.calls)
@@ -338,6 +360,9 @@ func c19Oracle(cs c19Case, obs c19Obs) []c19Problem {
 	}
 	if obs.Parse.Kind != "ok" || cl.Invalid != "" {
 		return nil // not a well-formed request: the property says nothing (C07 covers the answer)
+	}
+	if obs.Misplaced != "" {
+		out = append(out, c19Problem{Detail: obs.Misplaced})
 	}
 	if obs.Error != "" {
 		out = append(out, c19Problem{Detail: obs.Error})
@@ -825,7 +850,7 @@ func c19Gen(r *hx.Rand, safe bool) c19Case {
 		for i := range data {
 			data[i] = byte(r.Intn(256))
 		}
-		cs.Files = append(cs.Files, mpFile{Key: strconv.Itoa(k), Filename: fmt.Sprintf("upload-%d%s", k, hx.Pick(r, []string{".bin", ".txt", " copy.pdf", "-é.png"})), Data: data})
+		cs.Files = append(cs.Files, mpFile{Key: strconv.Itoa(k), Filename: fmt.Sprintf("upload-%d%s", k, hx.Pick(r, []string{".bin", ".txt", " copy.pdf", "-é.png", "%20report.pdf", " 100%25-cotton.png", "+a&b=c.txt", ";v=1.dat"})), Data: data})
 		np := 1
 		if !safe && r.Chance(1, 3) {
 			np = r.Range(2, 3) // one file used at several positions
@@ -1001,6 +1026,55 @@ func c19Concurrent(ctx *Ctx, idx int, r *hx.Rand, n int) {
 	}
 }
 
+// c19UploadFault: the service answers the multipart sub-request of an upload with something that
+// is not a result (`null`, `{}`, errors). The failure must be reported, and the operation must
+// not be sent a second time (as a plain JSON call with the file variable nulled).
+func c19UploadFault(ctx *Ctx, idx int, cs c19Case, answer string) {
+	cs = cs.withBig()
+	hc := mpLayout{Ops: &cs.Ops, Map: &cs.Map, Files: cs.Files}.build(cs.Label)
+	res, err := requests.Parse(hc.request())
+	if err != nil || len(cs.Files) == 0 {
+		return
+	}
+	rt := &c19RT{uploadAnswer: answer}
+	q := queryer.NewMultiOpQueryer("http://svc/", 1000).WithHTTPClient(&http.Client{Transport: rt})
+	inputs := make([]*requests.Request, len(res.Requests))
+	for i, r := range res.Requests {
+		inputs[i] = stepRequest(r, nil)
+	}
+	var qerr error
+	pan := ""
+	func() {
+		defer func() {
+			if p := recover(); p != nil {
+				pan = fmt.Sprint(p)
+			}
+		}()
+		_, qerr = q.Query(inputs)
+	}()
+	ctx.Rep.Case("upload-fault\x00"+answer+"\x00"+cs.Ops+"\x00"+cs.Map, true)
+	ctx.Rep.Count("upload answered with " + answer)
+	multipart, jsonOps := 0, 0
+	for _, c := range rt.calls {
+		if c.Multipart {
+			multipart++
+		} else {
+			jsonOps += len(c.Batch)
+		}
+	}
+	report := map[string]interface{}{"case": cs, "upload_answer": answer}
+	switch {
+	case pan != "":
+		ctx.Rep.Fail(hx.Failure{Kind: "property-fails", Detail: "MultiOpQueryer.Query panicked when an upload was answered with " + answer + ": " + pan, Case: report, Index: idx})
+	case multipart == 0:
+		return // no file reached a position that is sent (nothing to judge)
+	case qerr == nil:
+		ctx.Rep.Fail(hx.Failure{Kind: "property-fails", Detail: "an upload sub-request answered with " + answer + " (no result) was reported as a success", Case: report, Index: idx})
+	case multipart+jsonOps > len(inputs):
+		ctx.Rep.Fail(hx.Failure{Kind: "property-fails", Detail: fmt.Sprintf("an upload answered with %s was sent again: %d operation(s), %d multipart call(s) + %d operation(s) in JSON calls", answer, len(inputs), multipart, jsonOps), Case: report, Index: idx})
+	}
+}
+
 func runC19(ctx *Ctx) error {
 	ctx.Rep.Rule = c19Rule
 	idx := 0
@@ -1011,6 +1085,11 @@ func runC19(ctx *Ctx) error {
 	for k, rounds := 0, 6*ctx.Budget; k < rounds; k++ {
 		r := ctx.Rand.Fork()
 		c19Concurrent(ctx, 1000000+k*100, r, []int{2, 8, 32, 64}[k%4])
+	}
+	for k, n := 0, 200*ctx.Budget; k < n; k++ {
+		r := ctx.Rand.Fork()
+		cs := c19Gen(r, true)
+		c19UploadFault(ctx, 2000000+k, cs, hx.Pick(r, []string{"null", "{}", `{"data":null}`, `{"errors":[{"message":"boom"}]}`, "[]", "not json"}))
 	}
 	safe, wild := 9000*ctx.Budget, 4000*ctx.Budget
 	for k := 0; k < safe; k++ {
